@@ -249,7 +249,8 @@ func decideC02(c c02Case) ev.Verdict {
 		if reported != (len(wantNodes) > 0) {
 			return ev.Violation("c02-nested-presence", "path %q from %s: nested reported=%v, the path reaches nodes %v", c.PathText, n.ID, reported, short(wantNodes))
 		}
-		if reported && (!m.EqualStrings(wantNodes, gotNodes) || failed != int64(len(wantNodes))) {
+		// failedNodes is compared only when the trace carries it (its name is not part of the property)
+		if reported && (!m.EqualStrings(wantNodes, gotNodes) || (failed >= 0 && failed != int64(len(wantNodes)))) {
 			return ev.Violation("c02-nested-nodes-mismatch", "path %q from %s: nested visited %v (failedNodes=%d), the path reaches %v\ngraph:\n%s", c.PathText, n.ID, short(gotNodes), failed, short(wantNodes), c.Graph)
 		}
 		if len(wantNodes) > 0 {
